@@ -32,6 +32,72 @@ Vocabulary (all defined in the Lemmas files, walking the axes in lock-step with 
 namespace Nix.C08
 open Nix Nix.Dim Nix.DataView Nix.Units Nix.Units.Lemmas Nix.Units.Gen Nix.Tagging
 
+/-! ## the tie to the source: decisions and order of checks re-rendered from `tag.py` / `multi_tag.py` -/
+
+/-- **Generated decisions.** The pieces of `_calc_data_slices`, `_slices_in_data`, `_scale_position` and
+`MultiTag.feature_data` that `harness/extract/tagshape.py` renders from the source and the model uses as they come
+are the ones every theorem below is about: the stop rule is kept iff the (unscaled) extent entry is `> 0`, otherwise
+— and without an entry — the mode is `Inclusive`; the stop position is `extent · scaling + start`; the slice is
+`slice(a, b + 1)`; a whole axis starts at 0; a stop is inside the data iff `stop ≤ extent`; an indexed feature is
+refused by the first test iff `posidx > rows`; on a set dimension `"none"` counts as no unit; `InvalidUnit` from the
+scaling becomes `IncompatibleDimensions`.  An edit of one of them in the source changes the generated file and
+breaks this theorem (and the proofs that use it). -/
+theorem C08_generated_decisions :
+    (∀ e : Rat, Gen.extentKeepsStopRule e = true ↔ 0 < e) ∧
+    sliceModeNamed Gen.extentElseMode = .inclusive ∧ sliceModeNamed Gen.noExtentMode = .inclusive ∧
+    Gen.extentElseMode = "Inclusive" ∧ Gen.noExtentMode = "Inclusive" ∧
+    (∀ e sc start : Rat, Gen.stopPos e sc start = e * sc + start) ∧
+    (∀ a b : Int, Gen.sliceOf a b = (a, b + 1)) ∧ Gen.wholeAxisStart = 0 ∧
+    (∀ s n : Int, Gen.stopInData s n = true ↔ s ≤ n) ∧
+    (∀ i rows : Nat, Gen.indexedRowBeyond i rows = true ↔ rows < i) ∧
+    Gen.setNoUnitText = "none".toList ∧ Gen.invalidUnitBecomes = ("InvalidUnit", "IncompatibleDimensions") := by
+  refine ⟨fun e => (gen_extent_mode e).1, (gen_extent_mode 0).2.1, (gen_extent_mode 0).2.2, by decide, by decide,
+    fun _ _ _ => rfl, fun _ _ => rfl, rfl, ?_, ?_, by decide, by decide⟩
+  · intro s n; simp [Gen.stopInData]
+  · intro i rows; simp [Gen.indexedRowBeyond]
+
+/-- **Order of checks in the source.** The `if` / `except` tests of the eight functions, in source order, with what
+each does (`raise <class>`, `return`, `-` = neither), as re-rendered on every run.  The model's functions make the
+same tests in the same order (`Tag.taggedData`, `Tag.featureData`, `calcSlicesMtag`, `MultiTag.taggedData`,
+`MultiTag.featureData`, `scalePosition`, `calcSlices`, `slicesInData`); a check that is added, removed, reordered
+or raises another class breaks this theorem. -/
+theorem C08_source_shape :
+    Gen.guardsCalcDataSlices =
+      [("not self.units", "-"), ("idx < len(position)", "-"), ("extent is not None and idx < len(extent)", "-")] ∧
+    Gen.guardsSlicesInData = [("slices is None or not all(slices)", "return")] ∧
+    Gen.guardsScalePosition =
+      [("dimtype == DimensionType.Set", "-"), ("dimtype == DimensionType.Set", "-"),
+       ("unit and unit != 'none'", "raise IncompatibleDimensions"),
+       ("dimunit is None and unit is not None", "raise IncompatibleDimensions"),
+       ("dimunit is not None and unit is not None", "-"), ("except InvalidUnit", "raise IncompatibleDimensions")] ∧
+    Gen.guardsTagTaggedData =
+      [("len(references) == 0", "raise OutOfBounds"),
+       ("isinstance(refidx, int) and refidx >= len(references)", "raise OutOfBounds"),
+       ("extent and len(position) != len(extent)", "raise IncompatibleDimensions"),
+       ("not all(slices)", "return"), ("not self._slices_in_data(ref, slices)", "raise OutOfBounds")] ∧
+    Gen.guardsTagFeatureData =
+      [("len(self.features) == 0", "raise OutOfBounds"), ("except KeyError", "-"),
+       ("feature.data.name == featidx or feature.data.id == featidx", "-"), ("feat is None", "raise"),
+       ("data is None", "raise UninitializedEntity"), ("feat.link_type == LinkType.Tagged", "-"),
+       ("not self._slices_in_data(data, slices)", "raise OutOfBounds")] ∧
+    Gen.guardsMtagCalcSlices =
+      [("not positions or index >= positions.shape[0]", "raise OutOfBounds"),
+       ("extents and index >= extents.shape[0]", "raise OutOfBounds"),
+       ("extents and positions.data_extent != extents.data_extent", "raise IncompatibleDimensions"),
+       ("len(positions.shape) == 1", "-"), ("extents and len(extents.shape) == 1", "-"),
+       ("extents is not None and len(extents) > 0", "-")] ∧
+    Gen.guardsMtagTaggedData =
+      [("len(references) == 0", "raise OutOfBounds"),
+       ("posidx >= positions.data_extent[0] or (extents and posidx >= extents.data_extent[0])", "raise OutOfBounds")] ∧
+    Gen.guardsMtagFeatureData =
+      [("len(self.features) == 0", "raise OutOfBounds"), ("except KeyError", "-"),
+       ("feature.data.name == featidx or feature.data.id == featidx", "-"), ("feat is None", "raise"),
+       ("data is None", "raise UninitializedEntity"), ("feat.link_type == LinkType.Tagged", "-"),
+       ("not self._slices_in_data(data, slices)", "raise OutOfBounds"), ("feat.link_type == LinkType.Indexed", "-"),
+       ("posidx > data.data_extent[0]", "raise OutOfBounds"),
+       ("not self._slices_in_data(data, slices)", "raise OutOfBounds")] := by
+  refine ⟨?_, ?_, ?_, ?_, ?_, ?_, ?_, ?_⟩ <;> decide
+
 /-! ## one axis, units -/
 
 /-- **Units.** When the tag unit relates to the dimension's unit (`UnitRel`), `_scale_position` multiplies
@@ -74,7 +140,7 @@ theorem C08_region_shape (stop : SliceMode) (p e sc : Rat) :
     regionOf stop p (some e) sc = ⟨if 0 < e then stop else .inclusive, p * sc, e * sc + p * sc⟩ ∧
     regionOf stop p none sc = ⟨.inclusive, p * sc, p * sc⟩ ∧
     regionOf stop p (some 0) sc = ⟨.inclusive, p * sc, p * sc⟩ := by
-  refine ⟨rfl, rfl, ?_⟩
+  refine ⟨regionOf_some stop p e sc, regionOf_none stop p sc, ?_⟩
   rw [regionOf_some]
   simp
 
@@ -385,11 +451,11 @@ theorem C08_feature_multi (t : MTagDesc) (nfeats idx : Nat) (stop : SliceMode) (
       rw [npAllLe_eq _ _ (by simp)]
       rw [windowsIn_stopsIn _ _ hw]
     have : ¬ idx > rows := by omega
-    simp only [MultiTag.featureData, h0, if_false, this, viewIfInData, hin]
+    simp only [MultiTag.featureData, h0, if_false, gen_indexedRowBeyond, decide_eq_true_eq, this, viewIfInData, hin]
     rw [hsl, mkView_ok _ _ hw]
   · intro rows rest dims hle
     by_cases hgt : idx > rows
-    · simp [MultiTag.featureData, h0, hgt]
+    · simp [MultiTag.featureData, h0, gen_indexedRowBeyond, hgt]
     · have heq : idx = rows := by omega
       subst heq
       have hsl : (some ((idx : Int), (idx : Int) + 1) :: fullWindows rest) =
@@ -401,7 +467,7 @@ theorem C08_feature_multi (t : MTagDesc) (nfeats idx : Nat) (stop : SliceMode) (
         simp only [slicesInData, allSome_map_some]
         rw [npAllLe_eq _ _ (by simp)]
         simp [stopsIn]
-      simp only [MultiTag.featureData, h0, if_false, hgt, viewIfInData, hin]
+      simp only [MultiTag.featureData, h0, if_false, gen_indexedRowBeyond, decide_eq_true_eq, hgt, viewIfInData, hin]
   · intro data
     simp only [MultiTag.featureData, h0, if_false, full_view]
   · intro data position extent scs hrow hrank hok
